@@ -280,7 +280,11 @@ fn expected_payload(case: &CliCase, input: &[u8]) -> Option<String> {
     let serde_xml_rs = case.parser.as_ref().map(|(_, v)| v == "serde-xml-rs").unwrap_or(false);
     let derive = case.derive.as_ref().map(|(_, v)| v.clone()).unwrap_or_else(|| "Serialize, Deserialize".to_string());
     let sorted = case.sort.as_ref().map(|(_, v)| v == "name").unwrap_or(false);
-    let o = real::opts(if serde_xml_rs { "" } else { "@" }, "$text", &derive, sorted);
+    // "the library's rendering for the corresponding options": the preset the flag names, with the
+    // derive string and the sort order mapped independently of src/args.rs
+    let mut o = if serde_xml_rs { xml_schema_generator::Options::serde_xml_rs() } else { xml_schema_generator::Options::quick_xml_de() };
+    o.derive = derive.clone();
+    o.sort = if sorted { xml_schema_generator::SortBy::XmlName } else { xml_schema_generator::SortBy::Unsorted };
     let tree = guarded(|| {
         let mut r = Reader::from_str(text);
         into_struct(&mut r)
